@@ -22,6 +22,10 @@ import (
 	"github.com/modern-go/reflect2"
 )
 
+// maxBigIntExponent is the largest binary exponent of a real number that is converted
+// to a *big.Int (a float64 stays below 1024).
+const maxBigIntExponent = 1 << 16
+
 var (
 	bigIntZero   = big.NewInt(0)
 	bigIntOne    = big.NewInt(1)
@@ -99,6 +103,12 @@ func (dec *Decoder) decodeBigInt(t reflect.Type, tag byte, p **big.Int) {
 		*p = dec.readBigInt(t)
 	case TagDouble:
 		if bf := dec.readBigFloat(t); bf != nil {
+			// the integer has as many bits as the exponent says: "d1e999999999;" would ask
+			// for hundreds of megabytes. Nothing that is a double gets near this bound.
+			if !bf.IsInf() && bf.MantExp(nil) > maxBigIntExponent {
+				dec.decodeStringError(bf.Text('g', 10), "*big.Int")
+				return
+			}
 			*p, _ = bf.Int(nil)
 		}
 	case TagUTF8Char:
